@@ -28,6 +28,7 @@ func c06Opts(rng *vlib.Rng) idl.GenOpts {
 	o.UnionDefault = false
 	o.HardLiterals = true
 	o.GoEscapes = true
+	o.ComposedLiterals = true // quotes after backslashes, over-escaped quotes, HTML entities
 	o.ExpDoubles = true
 	o.HexIDs = true
 	o.SameNS = rng.Chance(1, 4)
